@@ -124,7 +124,7 @@ func checkC18(c *Ctx, r *Report) {
 		var retRoots []ssa.Value
 		for _, ex := range exitsOf(fi.SSA) {
 			if ex.Ret != nil && len(ex.Ret.Results) == 1 {
-				retRoots = append(retRoots, phiLeaves(unspill(ex.Ret.Results[0], ex.Block))...)
+				retRoots = append(retRoots, w.originValues(unspill(ex.Ret.Results[0], ex.Block))...)
 			}
 		}
 		nApp := 0
@@ -573,6 +573,7 @@ func checkDiagOperands(c *Ctx, r *Report) {
 			viol = fmt.Sprintf("%s: constructor call not found in the syntax tree", w.pos(cl.Pos()))
 			continue
 		}
+		fi = w.ownerOf(fi, call) // the function the call is written in (possibly a new helper of fnk)
 		fd := w.defsOf(fi)
 		fr := w.exprRoot(fi, fd, call.Args[0], 0)
 		rg := w.exprRoot(fi, fd, call.Args[len(call.Args)-1], 0)
@@ -684,6 +685,7 @@ func checkDiagOperands(c *Ctx, r *Report) {
 			}
 			n++
 			ss = append(ss, w.pos(cl.Pos()))
+			fi = w.ownerOf(fi, call)
 			rt := w.exprRoot(fi, w.defsOf(fi), call.Args[ai], 0)
 			if rt != "recv.groupedAttributes" && !strings.HasPrefix(rt, "param:") {
 				v = fmt.Sprintf("%s: %s passes an attribute that is not one of the validator's own classified attributes (root %s)", w.pos(cl.Pos()), fnk, rt)
